@@ -480,3 +480,96 @@ def rule_neg_truth(db: ProgramDB) -> List[Instance]:
     m2, res2 = variable_output_profile(db)
     out += _judge_truth("NEG-TRUTH", "Variable._process_output_and_update_values_", m2, res2)
     return out
+
+
+# ---------------------------------------------------------------------------------- NEG-HONOURED
+def rule_neg_honoured(db: ProgramDB) -> List[Instance]:
+    """The leaf arm of Not flips a flag on the operand; the negation exists only if something reads that flag.  (a) an
+    operand whose class has no such flag never reaches the arm (it is refused) - otherwise not_(for_all(...)) silently keeps
+    the meaning of for_all(...); (b) every class that declares the flag reads it where it decides its truth (or, for the
+    comparison, maps it to the inverse operator in the setter)."""
+    out = []
+    fn = not_function(db)
+    operand = fn.positional_params[0]
+    _, assign, _ = leaf_flag_transfer(db)
+    cfg = CFG(fn)
+
+    def flips(nd):
+        return nd.kind == "stmt" and nd.ast is assign
+
+    def has_flag_edge(e) -> bool:
+        """edges on which the operand is known to have the flag"""
+        src = cfg.nodes[e.src]
+        if src.kind != "test":
+            return False
+        t = getattr(src.stmt, "test", None)
+        neg = False
+        while isinstance(t, ast.UnaryOp) and isinstance(t.op, ast.Not):
+            t, neg = t.operand, not neg
+        if isinstance(t, ast.Call) and dotted(t.func) == "hasattr" and len(t.args) == 2 and unparse(t.args[0]) == operand \
+                and isinstance(t.args[1], ast.Constant) and t.args[1].value == "_invert_":
+            return e.label == ("F" if neg else "T")
+        return False
+    # a path to the flip that never establishes hasattr(operand, '_invert_') ...
+    p = cfg.find_path(cfg.entry, flips, kinds=("n",), edge_ok=lambda e: e.kind == "n" and not has_flag_edge(e))
+    # ... is harmless only if reading the flag there does not default (getattr(operand, '_invert_', False) accepts everything)
+    defaults = any(isinstance(c, ast.Call) and dotted(c.func) == "getattr" and len(c.args) == 3 for c in ast.walk(assign.value))
+    guarded = p is None or not defaults and False
+    if p is not None:
+        # without an explicit test the arm is still safe when the flag is read without a default: an operand without it raises
+        guarded = not defaults and any(isinstance(x, ast.Attribute) and x.attr == "_invert_" and isinstance(x.ctx, ast.Load) for x in ast.walk(assign.value))
+    out.append(inst("NEG-HONOURED", HOLDS if guarded else VIOLATION, fn, "Not.leaf-arm[only operands that have the flag]",
+                    "an operand without an _invert_ flag does not reach the flip (it is refused)" if guarded else
+                    f"`{unparse(assign)}` is reached by any operand and creates the flag on classes that never read it: not_(for_all(v, c)), or not_ "
+                    f"of a conclusion selector, returns the rows of the un-negated condition", line=assign.lineno))
+    # (b)
+    se = db.cls("SymbolicExpression")
+    declaring = []
+    for c in sorted([se] + se.all_subclasses(), key=lambda k: k.qualname):
+        if any(f.name in ("_invert_", "_invert__") for f in c.own_fields) or "_invert_" in c.setters:
+            declaring.append(c)
+    if not declaring:
+        raise AnalysisError("no class declares the _invert_ flag")
+    for c in declaring:
+        readers = []
+        for k in [c] + c.all_subclasses():
+            for m in list(k.methods.values()) + list(k.setters.values()):
+                if m.cls is not k:
+                    continue
+                if m.name == "_invert_" and m in k.setters.values():
+                    # the setter honours the flag if it changes something else than the flag itself
+                    if any(isinstance(a, ast.Assign) and any(isinstance(t, ast.Attribute) and t.attr not in ("_invert_", "_invert__") for t in a.targets)
+                           for a in own_nodes(m.node)):
+                        readers.append(m)
+                    continue
+                if m.name == "_invert_":
+                    continue
+                if any(isinstance(x, ast.Attribute) and x.attr == "_invert_" and isinstance(x.ctx, ast.Load) and isinstance(x.value, ast.Name) and x.value.id == "self"
+                       for x in own_nodes(m.node)):
+                    readers.append(m)
+        ok = bool(readers)
+        out.append(inst("NEG-HONOURED", HOLDS if ok else VIOLATION, c, f"{c.name}[the flag is read]",
+                        f"read by {', '.join(sorted({r.short for r in readers}))[:120]}" if ok else
+                        f"{c.name} declares the _invert_ flag and nothing in it reads it: not_ of such an operand is accepted and changes nothing"))
+    return out
+
+
+# ---------------------------------------------------------------------------------- NEG-IN-PLACE
+def rule_neg_in_place(db: ProgramDB) -> List[Instance]:
+    """not_(c) denotes the complement of c and leaves c what it was: whoever else holds c (the same condition object used a
+    second time in the tree, a query built and evaluated earlier) still means c.  The arms for and/or and descriptors build new
+    nodes; a leaf has to be negated on a copy as well."""
+    out = []
+    fn = not_function(db)
+    operand = fn.positional_params[0]
+    _, assign, _ = leaf_flag_transfer(db)
+    rets = [r for r in own_nodes(fn.node) if isinstance(r, ast.Return) and r.value is not None]
+    returns_operand = any(isinstance(r.value, ast.Name) and r.value.id == operand for r in rets)
+    # the flip is done on the object that was passed in (no rebinding of the operand to a copy before it)
+    rebound = [a for a in own_nodes(fn.node) if isinstance(a, ast.Assign) and a.lineno < assign.lineno and any(isinstance(t, ast.Name) and t.id == operand for t in a.targets)
+               and isinstance(a.value, ast.Call) and dotted(a.value.func) in ("copy", "copy.copy", "deepcopy", "copy.deepcopy", "replace", "dataclasses.replace")]
+    in_place = returns_operand and not rebound
+    out.append(inst("NEG-IN-PLACE", VIOLATION if in_place else HOLDS, fn, "Not.leaf-arm[negated in place]",
+                    f"`{unparse(assign)}` flips the flag on the operand itself and returns it: every other holder of that object is negated with it"
+                    if in_place else "a leaf is negated on a copy", line=assign.lineno))
+    return out
